@@ -317,9 +317,17 @@ bool ZCK_PUBLIC_API zck_set_ioption(zckCtx *zck, zck_ioption option, ssize_t val
     /* Set hash type */
     if(option == ZCK_HASH_FULL_TYPE) {
         VALIDATE_WRITE_BOOL(zck);
+        if(zck->comp.started) {
+            set_error(zck, "Unable to set hash type after data has been written");
+            return false;
+        }
         return set_full_hash_type(zck, value);
     } else if(option == ZCK_HASH_CHUNK_TYPE) {
         VALIDATE_WRITE_BOOL(zck);
+        if(zck->comp.started) {
+            set_error(zck, "Unable to set hash type after data has been written");
+            return false;
+        }
         return set_chunk_hash_type(zck, value);
 
     /* Validation options */
@@ -354,6 +362,11 @@ bool ZCK_PUBLIC_API zck_set_ioption(zckCtx *zck, zck_ioption option, ssize_t val
         zck->prep_hdr_size = value;
 
     } else if(option == ZCK_UNCOMP_HEADER) {
+        if(zck->comp.started) {
+            set_error(zck, "Unable to set uncompressed source after data has "
+                           "been written");
+            return false;
+        }
         zck->has_uncompressed_source = 1;
         /* Uncompressed source requires chunk checksums to be a minimum of SHA-256 */
         if(zck->chunk_hash_type.type == ZCK_HASH_SHA1 ||
